@@ -157,7 +157,7 @@ func cmdVC(args []string) {
 		return
 	}
 	start := time.Now()
-	solveAll(obls, time.Duration(*timeout)*time.Second, strings.Split(*port, ","), 6)
+	solveAll(obls, time.Duration(*timeout)*time.Second, strings.Split(*port, ","), 12)
 	bad := 0
 	for _, o := range obls {
 		if o.Status != "proved" {
